@@ -14,6 +14,46 @@ class AnalysisError(Exception):
     anchor, floor not met, unsupported construct).  Converted to exit code 2."""
 
 
+def _escaping_names(fn):
+    """Names of `fn` that a nested scope or a global / nonlocal declaration can see."""
+    out = set()
+    for n in ast.walk(fn):
+        if isinstance(n, (ast.Global, ast.Nonlocal)):
+            out.update(n.names)
+        elif n is not fn and isinstance(n, (ast.FunctionDef, ast.AsyncFunctionDef, ast.Lambda, ast.ClassDef)):
+            for m in ast.walk(n):
+                if isinstance(m, ast.Name):
+                    out.add(m.id)
+    return out
+
+
+def canonicalise(tree):
+    """Behaviour-preserving normalisation applied to every module before any rule looks at it, so that rules see one
+    idiom instead of two:  `t = <expr>` immediately followed by `return t`, where `t` is a plain local that no nested
+    scope can see (so it is dead after the return), becomes `return <expr>` (at the position of the return statement)."""
+    for fn in ast.walk(tree):
+        if not isinstance(fn, (ast.FunctionDef, ast.AsyncFunctionDef)):
+            continue
+        cnt = None
+        for node in ast.walk(fn):
+            for field in ("body", "orelse", "finalbody"):
+                block = getattr(node, field, None)
+                if not (isinstance(block, list) and len(block) >= 2 and isinstance(block[0], ast.stmt)):
+                    continue
+                i = 0
+                while i + 1 < len(block):
+                    a, r = block[i], block[i + 1]
+                    if isinstance(a, ast.Assign) and len(a.targets) == 1 and isinstance(a.targets[0], ast.Name) \
+                            and isinstance(r, ast.Return) and isinstance(r.value, ast.Name) and r.value.id == a.targets[0].id:
+                        if cnt is None:
+                            cnt = _escaping_names(fn)
+                        if a.targets[0].id not in cnt:
+                            r.value = a.value
+                            del block[i]
+                            continue
+                    i += 1
+
+
 class ModuleInfo:
     def __init__(self, name, path, source):
         self.name = name
@@ -27,6 +67,7 @@ class ModuleInfo:
                 self.tree = ast.parse(source, filename=path)
         except SyntaxError as e:
             raise AnalysisError("syntax error in %s: %s" % (path, e))
+        canonicalise(self.tree)
         self.star_imports = []     # module names (package-local or external)
         self.names = {}            # local name -> ('class'|'func'|'module'|'external'|'var', target)
         self.classes = {}          # simple name -> ClassInfo (top level)
